@@ -80,6 +80,10 @@ type Action struct {
 	B     int    `json:"b"`
 	E     int    `json:"e"`
 	Ms    int    `json:"ms"`
+	// Mid: for local calls (send, llogout): the kind of inbound message the peer delivers while the call's own
+	// message is still inside the send path ("" = none); MidSeq is its sequence number
+	Mid    string `json:"mid"`
+	MidSeq int    `json:"midSeq"`
 }
 
 func (a *Action) norm() {
